@@ -32,11 +32,18 @@ func (cs corruptsim) Gen(prop, tier string, ts *sim.Tapes) *Case {
 		p.MaxSteps, p.MaxOps = 8, 40
 		p.BucketHeavy = ts.Get("swarm").Chance(1, 3)
 	}
+	foreign := 0
+	if prop == "C19" && ts.Get("swarm").Chance(1, 4) {
+		// the consistent file is laid out by the independent encoder (layouts the current writer never produces):
+		// the integrity check must report nothing on it, and must still find every corruption class in it
+		foreign = 1
+		p.OnlyCommit = true
+	}
 	prog := work.GenProgram(ts, cfg, p)
 	// the last write activity must be a successful commit
 	prog.Steps = append(prog.Steps, work.Step{Kind: "tx", Tx: &work.Txn{Mode: "update", End: "commit", Ops: []work.Op{
 		{Kind: "mkbi", Key: "last"}, {Kind: "nextseq", Path: []string{"last"}}}}})
-	return &Case{Prop: prop, Engine: cs.Name(), Tier: tier, Seed: ts.Seed, Run: ts.Run, Prog: prog, Tapes: map[string][]uint64{}, Params: map[string]int{}}
+	return &Case{Prop: prop, Engine: cs.Name(), Tier: tier, Seed: ts.Seed, Run: ts.Run, Prog: prog, Tapes: map[string][]uint64{}, Params: map[string]int{"foreign": foreign}}
 }
 
 // build runs the history and returns the file image at rest plus the model
@@ -85,6 +92,24 @@ func (cs corruptsim) Run(c *Case, dir string) *Outcome {
 		return out
 	}
 	if c.Prop == "C19" {
+		if c.Params["foreign"] == 1 {
+			lay := sim.NewTape(c.Seed, c.Run, "layout")
+			fimg, _ := dec.Encode(e.Cur, dec.EncOpts{PageSize: c.Prog.Cfg.PageSize, Txid: uint64(e.LastTxid), PersistFreelist: !c.Prog.Cfg.NoFreelistSync,
+				Scatter: lay.Chance(2, 3), GapData: lay.Chance(1, 3), NeverInline: lay.Chance(1, 5), Choose: func(n int) int { return lay.Intn(n) }})
+			ok := false
+			if im, err := dec.Load(fimg); err == nil {
+				if wi, w := im.Winner(); w {
+					r := im.Decode(wi)
+					ok = r.Clean() && model.Diff(r.Root, e.Cur) == ""
+				}
+			}
+			if !ok {
+				out.HarnessErr = "encoder output rejected by the decoder"
+				return out
+			}
+			img = fimg
+			out.probe("foreign-layout-source", 1)
+		}
 		cs.runStructural(c, dir, img, e, out)
 	} else {
 		cs.runMeta(c, dir, img, e, out)
@@ -724,6 +749,6 @@ func init() {
 		Assume:   []string{"the 16-byte page header in front of the meta record is not part of the property and is not damaged", "zero-length files are new databases by definition and are not treated as damage"}})
 	register(&Info{Prop: "C19", Engine: cs, Level: "fault_enumeration", QuickS: 60, ThoroughS: 900,
 		RealStub: "real: bbolt Open + Tx.Check, and `bbolt check` from cmd/bbolt/command run in-process; injected: single structural corruptions written into a copy of a consistent file; referee: the independent decoder classifies the mutated image",
-		Rule:     "per seeded history: the consistent file must report nothing (library and CLI exit 0); then a sweep of single structural corruptions over eligible pages/elements - free id removed (unreachable-unfreed), reachable page added to the freelist, free id duplicated, branch element redirected to a sibling's child (referenced twice), invalid page type, adjacent leaf elements / branch separators swapped (key order). The decoder decides which listed classes are really present in the mutated image: present -> Tx.Check must yield >= 1 error (recovered panics count) and `bbolt check` must fail; edit cancelled out -> nothing may be reported. distinct_nontrivial = distinct (file, corruption) pairs evaluated",
+		Rule:     "per seeded history (in a quarter of the runs the consistent file is the history's content laid out by the independent encoder dec/enc.go with layouts the current writer never produces - sparse pages, scattered ids, gaps, paged small buckets): the consistent file must report nothing (library and CLI exit 0); then a sweep of single structural corruptions over eligible pages/elements - free id removed (unreachable-unfreed), reachable page added to the freelist, free id duplicated, branch element redirected to a sibling's child (referenced twice), invalid page type, adjacent leaf elements / branch separators swapped (key order). The decoder decides which listed classes are really present in the mutated image: present -> Tx.Check must yield >= 1 error (recovered panics count) and `bbolt check` must fail; edit cancelled out -> nothing may be reported. distinct_nontrivial = distinct (file, corruption) pairs evaluated",
 		Assume:   []string{"only files with a single-page persisted freelist get freelist edits", "corruptions that the decoder classifies only outside the listed classes (bounds, ids) carry no expectation"}})
 }
